@@ -7,7 +7,7 @@ cd $R || exit 9
 if [ -n "$(git status --porcelain --untracked-files=no)" ]; then echo "/repo is dirty"; exit 9; fi
 if ! git apply --3way "$PATCH" 2>/dev/null; then git reset -q --hard HEAD; echo "PATCH DOES NOT APPLY"; exit 8; fi
 git reset -q
-cd /verif
+cd ${VERIF_DIR:-/verif}
 for p in "$@"; do
   ( time VERIF_REPO=$R ./check $p quick ) > ${OUT}_$p.log 2>&1
   echo "$p exit=$? $(grep -E '^VIOLATION|^HARNESS|^KNOWN' ${OUT}_$p.log | head -2 | tr '\n' ' ')"
